@@ -16,6 +16,7 @@ func init() {
 		Explain: "Decides encoding agreement as table agreement, not value round-trip: for every message-type tag the Go struct type passed to encodeMessage/encodeRelayMessage under that tag equals the type decoded in the arm/guard for that tag (NotifyMsg switch, push/pull guard, conflict and key-response guards); the untagged key-request decode site decodes a type that is encoded under exactly one tag; every tag has both sides; the tag codec writes the magic byte the decoder tests, uses the role-only form exactly below protocol 3 and the same msgpack handle type on both sides; the relay forwarder sends exactly the reader's remainder after the header to the header's destination, and the relay encoder lays out tag, header, inner tag, message in that order; a tag set is installed only if its encoding fits memberlist's metadata limit (SetTags and Create). msgpack's own round-trip is the trusted base.",
 		Run:     runC32,
 		Mutants: []Mutant{
+			{Name: "update-skips-unchanged-looking-meta", File: "serf/serf.go", Func: "func (s *Serf) handleNodeUpdate(", Old: "\tmember.Tags = s.decodeTags(n.Meta)\n", New: "\tif len(n.Meta) != len(s.encodeTags(member.Tags)) {\n\t\tmember.Tags = s.decodeTags(n.Meta)\n\t}\n", Expect: "R6"},
 			{Name: "rename-locals", Equivalent: true, Regexp: true, File: "serf/delegate.go", Func: "func (d *delegate) NotifyMsg(", Old: `\b(header|reader|raw|rebroadcast|rebroadcastQueue)\b`, New: "${1}Renamed"},
 			{Name: "decode-under-wrong-tag", File: "serf/keymanager.go", Func: "func (k *KeyManager) streamKeyResp(", Old: "messageType(r.Payload[0]) != messageKeyResponseType", New: "messageType(r.Payload[0]) != messageConflictResponseType", Expect: "R1"},
 			{Name: "encode-under-wrong-tag", File: "serf/internal_query.go", Func: "func (s *serfQueries) handleConflict(", Old: "encodeMessage(messageConflictResponseType, out,", New: "encodeMessage(messageKeyResponseType, out,", Expect: "R1"},
@@ -60,6 +61,43 @@ func runC32(c *an.Ctx) {
 	c.Rule("R2 tag codec: same magic byte; role-only exactly below protocol 3; same handle type; role key")
 	c.Rule("R3 relay: forwarder sends the reader's remainder to the header's destination; encoder layout = relay tag, header, inner tag, message")
 	c.Rule("R4 tags installed only if len(encodeTags(tags)) <= memberlist.MetaMaxSize on the same map (SetTags, Create)")
+	c.Rule("R6 a member's tags are always the decoding of the metadata that arrived last: handleNodeJoin and handleNodeUpdate store decodeTags(n.Meta) into the member on every path that has a member (no cache, no skip)")
+	for _, name := range []string{"handleNodeJoin", "handleNodeUpdate"} {
+		fn := sm(c, "R6", "Serf", name)
+		if fn == nil {
+			continue
+		}
+		isTags := func(in ssa.Instruction) bool {
+			st, ok := in.(*ssa.Store)
+			if !ok {
+				return false
+			}
+			_, f, okF := an.FieldOf(st.Addr)
+			return okF && f == "Tags"
+		}
+		n := 0
+		for _, in := range an.FindInstrs(fn, isTags) {
+			n++
+			p := an.Path(in.(*ssa.Store).Val)
+			c.Add(p == "(*Serf).decodeTags($0,$1.Meta)", "R6", name+":tags-from-meta", in, "the member's tags are decoded from the metadata of this notification (stores "+short(p)+")", "store value path")
+		}
+		c.Floor("R6", "tag stores in "+name, n, 1)
+		unknown := an.EdgesWhere(fn, func(f an.Cmp) bool {
+			return strings.HasPrefix(f.L, "$0.members[") && strings.HasSuffix(f.L, "#1") && f.Op == "==" && f.R == "c:false"
+		})
+		if name == "handleNodeJoin" {
+			// a join always ends with a member (the new-member branch stores the tags too); the only
+			// early exit is the test hook that drops the message
+			unknown = an.EdgesWhere(fn, func(f an.Cmp) bool {
+				return strings.Contains(f.L, "config.messageDropper(") && f.Op == "==" && f.R == "c:true"
+			})
+		}
+		skip := an.ReachFrom(fn, nil, &an.Cut{Edges: unknown, Instrs: isTags}, an.IsExit)
+		c.Add(skip == nil, "R6", name+":tags-always-decoded", fn, "every path through "+name+" that has a member stores freshly decoded tags (only 'member unknown' may skip it)", "reach/cut must-pass")
+		if skip != nil {
+			c.Obs[len(c.Obs)-1].Desc += " — exit without it at " + c.P.InstrPos(skip)
+		}
+	}
 	c.Rule("R5 every gossip decode into a local variable decodes into a fresh zero value (the decoder leaves absent fields untouched, so a reused target mixes two messages)")
 	c.Floor("R5", "decode sites with a local target", decodeTargetsFresh(c, "R5", c.P.FuncsIn(serf)), 12)
 	// tag names
